@@ -318,8 +318,16 @@ def check_seeded(ctx):
     import numpy as np
 
     from harness import seed as S
-    jobs = full_jobs(ctx, ctx.pick(1, 4), algo="sade", extra={"noise": True}, pipeline_seed=17, islands=1)
+    jobs = full_jobs(ctx, ctx.pick(2, 6), algo="sade", extra={"noise": True}, pipeline_seed=17, islands=1)
     for j in jobs:
+        seeded_case(ctx, j)
+
+
+def seeded_case(ctx, j):
+    import numpy as np
+
+    from harness import seed as S
+    if True:
         events = []
         key = "calibration|" + json.dumps(j["kcfg"]["vars"])
         S._ORIG["seed"](4000 + j["variant"])
